@@ -25,6 +25,10 @@ SampleOutcomes(coll) == {Sample(i, coll[i]) : i \in 1..Len(coll)}
 LawNum(coll) == [i \in 1..Len(coll) |-> 1]
 LawDen(coll) == Len(coll)
 
+(* constructors that take only a size (Bitstring::random, ::random_with_probability):  *)
+(* the result has exactly that many elements, whatever they are                         *)
+SizedOk(size, len) == len = size
+
 (* the element generator is a stream; `drawn` elements have been consumed *)
 Collect(stream, drawn, size) == [res |-> SubSeq(stream, drawn + 1, drawn + size), drawn |-> drawn + size]
 =============================================================================
